@@ -309,12 +309,17 @@ func c09Sched(c *vrep.Ctx) {
 	if c.Param("policy", "delay") == "preemption" {
 		pol = vsync.Preemption
 	}
+	scen := c.ParamInt("scenario", 0)
 	// corpus: two documents sharing most words (both calls score the same document) + a third
 	mk := func() *Classifier {
 		cl := NewClassifier(0.7)
 		cl.AddContent("License", "A", "license.txt", []byte("aa bb cc dd ee ff gg hh"))
 		cl.AddContent("License", "B", "license.txt", []byte("aa bb cc dd ee ff gg ii jj"))
 		cl.AddContent("Header", "C", "header.txt", []byte("kk ll mm nn oo"))
+		if scen >= 8 {
+			// a document with fewer tokens than the classifier's q: indexed with a q of its own
+			cl.AddContent("Supplement", "D", "preface.txt", []byte("pp"))
+		}
 		return cl
 	}
 	inputs := [][]byte{
@@ -324,10 +329,11 @@ func c09Sched(c *vrep.Ctx) {
 		[]byte("kk ll mm nn oo aa bb cc dd ee ff gg hh"),           // two documents
 		[]byte("aa bb cc dd ee ff gg hh"),                          // bare copy of A: no longer than the documents
 		[]byte("aa bb cc dd ee ff gg ii"),                          // bare near-copy of B
+		[]byte("pp aa bb cc dd ee ff gg hh"),                       // the shorter-than-q document followed by A
+		[]byte("pp"),                                               // the shorter-than-q document alone
 	}
-	scen := c.ParamInt("scenario", 0)
 	// scenario: which inputs the threads use (forced collisions first)
-	scens := [][]int{{0, 0}, {0, 1}, {1, 3}, {3, 2}, {0, 1, 3}, {1, 1, 0}, {4, 4}, {4, 5}}
+	scens := [][]int{{0, 0}, {0, 1}, {1, 3}, {3, 2}, {0, 1, 3}, {1, 1, 0}, {4, 4}, {4, 5}, {6, 0}, {6, 6}, {7, 4}}
 	pick := scens[scen%len(scens)]
 	if nthreads < len(pick) {
 		pick = pick[:nthreads]
@@ -340,7 +346,7 @@ func c09Sched(c *vrep.Ctx) {
 	for i, in := range inputs {
 		want[i] = vFmt(solo.Match(in))
 	}
-	c.R.Rule = "controlled scheduler on vinstr-instrumented v2 code (yield points at function entries, loop heads and around every call into go-diff): 2-3 threads each calling Match/MatchFrom on ONE shared, cold classifier (two near-identical documents so that calls score the same document); every interleaving within the stated delay/preemption bound; each call must return its solo result, the deep state hash (all classifier fields and package variables) must be unchanged, no panic; states = explored schedules, transitions = scheduling decisions; non-trivial = schedules with at least two simultaneously enabled threads and more context switches than threads"
+	c.R.Rule = "controlled scheduler on vinstr-instrumented v2 code (yield points at function entries, loop heads and around every call into go-diff): 2-3 threads each calling Match/MatchFrom on ONE shared, cold classifier (two near-identical documents so that calls score the same document; scenarios 8-10 add a document shorter than q, which is indexed with its own q); every interleaving within the stated delay/preemption bound; each call must return its solo result, the deep state hash (all classifier fields and package variables) must be unchanged, no panic; states = explored schedules, transitions = scheduling decisions; non-trivial = schedules with at least two simultaneously enabled threads and more context switches than threads"
 	c.Bound("inputs_per_thread", fmt.Sprint(pick))
 	c.Assume("go-diff, regexp and the runtime are atomic steps for the scheduler (yield points surround the calls into go-diff); the memory-model half is decided by c09_frozen")
 	c.Bound("threads", nthreads)
